@@ -4,7 +4,7 @@
 `git apply`, every check is run (evidence redirected), and /repo is restored with `git checkout -- .`."""
 import json, os, shutil, subprocess, sys, tempfile
 V = os.path.dirname(os.path.dirname(os.path.abspath(__file__)))
-PROPS = ['C01','C02','C03','C04','C05','C06','C07','C08','C09','C10','C12','C13','C14','C15','C16','C17','C18','C19','C20']
+PROPS = ['C01','C02','C03','C04','C05','C06','C07','C08','C09','C10','C11','C12','C13','C14','C15','C16','C17','C18','C19','C20']
 sid, wt, prop, needs = sys.argv[1:5]
 d = os.path.join(V, 'seeded', sid)
 os.makedirs(d, exist_ok=True)
